@@ -405,7 +405,7 @@ def run_jobs(ws, features, jobs, workers=None, progress=True, need_playback=None
         return r
 
     order = {j.name: i for i, j in enumerate(jobs)}
-    queue = sorted(jobs, key=lambda j: (j.prio, order[j.name]))
+    queue = sorted(jobs, key=lambda j: (0 if j.kf else j.prio, order[j.name]))   # witnesses of known findings first
     with cf.ThreadPoolExecutor(max_workers=workers) as ex:
         futs = {ex.submit(one, j): j for j in queue}
         for fu in cf.as_completed(futs):
